@@ -107,30 +107,25 @@ func runC11(r *Run) {
 			if f == nil {
 				continue
 			}
-			uses := false
-			for _, b := range f.Blocks {
-				for _, in := range b.Instrs {
-					if u, ok := in.(*ssa.UnOp); ok {
-						if g, ok := u.X.(*ssa.Global); ok && g.Name() == "tags" {
-							uses = true
-						}
-					}
-				}
-			}
-			if fn == "init" {
-				// the package initialiser contains the user-written init body
-				for _, a := range []string{"init#1"} {
-					if g := r.P.Func("binder", a); g != nil {
-						for _, b := range g.Blocks {
-							for _, in := range b.Instrs {
-								if u, ok := in.(*ssa.UnOp); ok {
-									if gl, ok := u.X.(*ssa.Global); ok && gl.Name() == "tags" {
-										uses = true
-									}
+			readsTags := func(g *ssa.Function) bool {
+				for _, h := range append([]*ssa.Function{g}, helpersOf(g)...) {
+					for _, b := range h.Blocks {
+						for _, in := range b.Instrs {
+							for _, op := range in.Operands(nil) {
+								if gl, ok := (*op).(*ssa.Global); ok && gl.Name() == "tags" {
+									return true
 								}
 							}
 						}
 					}
+				}
+				return false
+			}
+			uses := readsTags(f)
+			if fn == "init" {
+				// the package initialiser contains the user-written init body
+				if g := r.P.Func("binder", "init#1"); g != nil && readsTags(g) {
+					uses = true
 				}
 			}
 			r.check(uses, "binder:"+fn+":ranges-over-tags", pos, fn+" builds decoderPoolMap from tags", fn+" no longer builds the decoder pools from tags")
@@ -422,6 +417,82 @@ func runC11(r *Run) {
 			"FormBinding.Bind does not decide on the media type itself: `Content-Type: multipart/form-data` without a (usable) boundary is read as url-encoded, nothing is bound and no error is reported — the handler gets 200 with an untouched destination instead of 400")
 	})
 
+	r.rule("R12", "the default decoders zero what the client sent empty: the package initialiser builds the decoder pools from a ParserConfig in which ZeroEmpty and IgnoreUnknownKeys are set to true — without ZeroEmpty an empty value (`title=`, an empty element of a slice) leaves the destination as it was instead of binding the empty string the client encoded (E8: the defaults the round trip relies on)", func() {
+		ini := r.P.Func("binder", "init#1")
+		r.need(ini != nil, "binder has an init body")
+		got := map[string]bool{}
+		for _, g := range append([]*ssa.Function{ini}, anonFuncsDeep(ini)...) {
+			for _, fr := range fieldRefsOne(g) {
+				if !fr.Write || !strings.Contains(fr.Name, "ParserConfig.") {
+					continue
+				}
+				if b, ok := constBool(asConst(fr.Val)); ok && b {
+					got[fr.Name[strings.LastIndex(fr.Name, ".")+1:]] = true
+				}
+			}
+		}
+		for _, fld := range []string{"ZeroEmpty", "IgnoreUnknownKeys"} {
+			r.check(got[fld], "init:default-ParserConfig:"+fld, r.fpos(ini), "the default configuration sets "+fld,
+				"the package initialiser builds the default decoders without "+fld+" = true: with ZeroEmpty off an empty value no longer binds as the empty string (a slice {\"\", \"x\", \"\"} sent by the client comes back as {\"x\"}, `title=` leaves a preset field), with IgnoreUnknownKeys off every request carrying a key the struct does not know fails")
+		}
+	})
+
+	r.rule("R11", "a panic of the reflective decoder is an error of the bind: gofiber/schema walks the destination with reflect and indexes slices with numbers taken from the keys (`posts[-1][title]=x` → reflect: slice index out of range); nothing between a binder and fasthttp recovers, so every call of (*schema.Decoder).Decode in the binder package runs under a deferred function, registered on every path ahead of the call, that calls recover() and stores into a variable of the enclosing function (the error it returns) (E1 must-pass-through + E2: the totality clause for what the dependency does with untrusted keys)", func() {
+		n := 0
+		r.P.AllFuncs("binder", func(f *ssa.Function) {
+			for _, d := range callsMatching(f, false, nameHasSuffix("schema.Decoder).Decode")) {
+				n++
+				var guards []ssa.Instruction
+				for _, b := range f.Blocks {
+					for _, in := range b.Instrs {
+						df, ok := in.(*ssa.Defer)
+						if !ok {
+							continue
+						}
+						g := staticCalleeOf(&df.Call)
+						if g == nil {
+							continue
+						}
+						recovers, stores := false, false
+						for _, gb := range g.Blocks {
+							for _, gi := range gb.Instrs {
+								if c, ok := gi.(*ssa.Call); ok {
+									if bi, ok := c.Call.Value.(*ssa.Builtin); ok && bi.Name() == "recover" {
+										recovers = true
+									}
+								}
+								if st, ok := gi.(*ssa.Store); ok {
+									switch st.Addr.(type) {
+									case *ssa.FreeVar, *ssa.Parameter:
+										stores = true // the enclosing function's variable, captured or handed in by address
+									}
+								}
+							}
+						}
+						if recovers && stores {
+							guards = append(guards, in)
+						}
+					}
+				}
+				okGuard := false
+				if len(guards) > 0 {
+					_, hit := reach(entryOf(f), func(in ssa.Instruction) bool { return in == d.Instr }, nil, func(in ssa.Instruction) bool {
+						for _, g := range guards {
+							if g == in {
+								return true
+							}
+						}
+						return false
+					})
+					okGuard = hit == nil
+				}
+				r.check(okGuard, short(f.String())+":Decode:panic-becomes-an-error", r.pos(d.Instr), "Decode runs under a deferred recover that sets the function's error",
+					"the reflective decoder is called without a deferred recover: a key with a negative slice index (`posts[-1][title]=x`, `posts.-1.title=x`) panics inside gofiber/schema (reflect: slice index out of range), fasthttp does not recover — one request ends the process instead of getting an error / 400")
+			}
+		})
+		r.atLeast("Decode calls in the binder package", n, 1)
+	})
+
 	r.rule("R9", "a pooled decoder is configured where it is built: the schema decoders are shared through sync.Pool per binder tag, so the options that change what a decode yields (ZeroEmpty, IgnoreUnknownKeys, RegisterConverter, …) are set only in the function that creates the decoder (schema.NewDecoder); the only per-use setting is SetAliasTag, unconditionally ahead of Decode — an option flipped at one use stays with the decoder for the next form (E2 ownership of pooled state)", func() {
 		nOpt, nUse := 0, 0
 		r.P.AllFuncs("binder", func(f *ssa.Function) {
@@ -502,21 +573,56 @@ func runC11(r *Run) {
 
 	r.rule("R5", "visitor error latch (E1)", func() {
 		n := 0
+		// the latch variable is the one the visitor stores formatBindData's error into, whatever its name
+		loadOfCell := func(v ssa.Value, cell ssa.Value) bool {
+			u, ok := stripValue(v).(*ssa.UnOp)
+			return ok && u.Op == token.MUL && u.X == cell
+		}
 		for _, b := range []string{"HeaderBinding", "RespHeaderBinding", "CookieBinding", "QueryBinding", "FormBinding"} {
 			f := r.P.Func("binder", "(*"+b+").Bind")
 			if f == nil {
 				continue
 			}
+			var outerCells []ssa.Value
 			for _, a := range anonFuncsDeep(f) {
 				fb := callsMatching(a, false, func(s string) bool { return strings.Contains(s, "binder.formatBindData") })
 				if len(fb) == 0 {
 					continue
 				}
 				n++
-				// latch: from the edge err != nil (err is the captured cell) no formatBindData call is reachable
+				var cell ssa.Value
+				if v := fb[0].Value(); v != nil && v.Referrers() != nil {
+					var find func(x ssa.Value, d int)
+					find = func(x ssa.Value, d int) {
+						if d > 3 || x.Referrers() == nil {
+							return
+						}
+						for _, u := range *x.Referrers() {
+							switch y := u.(type) {
+							case *ssa.Store:
+								if y.Val == x {
+									cell = y.Addr
+								}
+							case *ssa.Phi:
+								find(y, d+1)
+							}
+						}
+					}
+					find(v, 0)
+				}
+				if cell == nil {
+					r.bad("binder:"+b+":visitor-latch", r.fpos(a), "binder."+b+"'s visitor does not keep the error of formatBindData in a variable: there is nothing to latch on")
+					continue
+				}
+				if fv, ok := cell.(*ssa.FreeVar); ok {
+					if bd := bindingOf(fv); bd != nil {
+						outerCells = append(outerCells, bd)
+					}
+				}
+				// latch: from the edge cell != nil no formatBindData call is reachable
 				okLatch := false
 				for _, br := range branchesIn(a) {
-					if cellName(br.Info.Root) == "err" {
+					if loadOfCell(br.Info.Root, cell) {
 						if s, ok := br.nilSlot(false); ok {
 							_, hit := reachEdge(edge{br.If.Block(), s}, func(in ssa.Instruction) bool { return in == fb[0].Instr }, nil, nil)
 							if hit == nil && dom(br.If.Block(), fb[0].Block()) {
@@ -531,7 +637,13 @@ func runC11(r *Run) {
 			ps := callsMatching(f, false, nameHasSuffix("binder.parse"))
 			okRet := len(ps) >= 1
 			for _, br := range branchesIn(f) {
-				if cellName(br.Info.Root) == "err" {
+				isLatch := cellName(br.Info.Root) == "err"
+				for _, oc := range outerCells {
+					if loadOfCell(br.Info.Root, oc) {
+						isLatch = true
+					}
+				}
+				if isLatch {
 					if s, ok := br.nilSlot(false); ok && len(ps) >= 1 {
 						if _, hit := reachEdge(edge{br.If.Block(), s}, func(in ssa.Instruction) bool { return isCallTo(in, nameHasSuffix("binder.parse")) }, nil, nil); hit != nil {
 							okRet = false
